@@ -134,7 +134,8 @@ func genExchange(x *X, env *sysEnv, cl *sClient, streaming bool) *exchange {
 	if c.Intn(5, "xff") == 0 {
 		ex.hdr = append(ex.hdr, hdrKV{"X-Forwarded-For", "203.0.113.5, 198.51.100.9"})
 	}
-	if ex.method == "POST" || ex.method == "PUT" || ex.method == "PATCH" || (ex.method == "DELETE" && c.Intn(3, "delbody") == 0) {
+	// (a body on GET / HEAD / OPTIONS / DELETE is unusual and legal: what the client framed is what the backend gets)
+	if ex.method == "POST" || ex.method == "PUT" || ex.method == "PATCH" || (ex.method == "DELETE" && c.Intn(3, "delbody") == 0) || c.Intn(6, "body-anyway") == 0 {
 		ex.body = genBody(x, "req", 200)
 		ex.chunked = c.Intn(3, "reqchunked") == 0
 		ex.pieces = genPieces(x, len(ex.body), "req")
